@@ -101,7 +101,7 @@ def run(workdir, module, cfg, *, extra_modules=None, workers=16, env=None,
     cfgp = os.path.join(rundir, module + '.cfg')
     with open(cfgp, 'w') as f:
         f.write(cfg)
-    cmd = ['java', '-XX:+UseParallelGC', '-Xmx6g', '-Xss512m',
+    cmd = ['java', '-XX:+UseParallelGC', '-Xmx%s' % os.environ.get('VERIF_TLC_HEAP', '3g'), '-Xss512m',
            '-DTLA-Library=' + spec_dir]
     cmd += list(java_opts or [])
     cmd += ['-cp', JAR + ':' + DEPS, 'tlc2.TLC',
